@@ -2,6 +2,7 @@
 real compiler -> artefacts -> Lean driver (elaborator, denotation, circuit semantics, wiring check)
 -> classification of every failure as listed finding or violation."""
 from __future__ import annotations
+import json
 import os
 import re
 
@@ -353,3 +354,34 @@ def run_semantic(res, sources, opts=None, count=30, extra_case=None, label="prog
         else:
             info["status"] = "known"
     return recs, infos, stats
+
+
+CORPUS = os.path.join(os.path.dirname(os.path.dirname(os.path.abspath(__file__))), "corpus", "regress.jsonl")
+
+
+def run_corpus(res, tier="quick"):
+    """Minimised past failures first: every entry of corpus/regress.jsonl that names this property is compiled (with and
+    without optimisation) and compared like a generated program. A repaired defect that comes back is then reported by
+    the ordinary run, whatever the generators happen to draw."""
+    if not os.path.exists(CORPUS):
+        return
+    entries = []
+    with open(CORPUS) as fh:
+        for line in fh:
+            line = line.strip()
+            if line:
+                d = json.loads(line)
+                if res.prop in d.get("properties", []):
+                    entries.append(d)
+    if not entries:
+        return
+    sources = []
+    for d in entries:
+        o = d.get("options") or {}
+        sources.append((d["source"], dict({"optimize": True}, **o)))
+        sources.append((d["source"], dict({"optimize": False}, **o)))
+    recs, infos, stats = run_semantic(res, sources, count=40 if tier == "quick" else 200,
+                                      extra_case={"steps": 16 if tier == "quick" else 60})
+    res.coverage["corpus"] = {"entries": [d["id"] for d in entries], "builds": len(sources),
+                              "outcomes": {k: v for k, v in stats.items() if v},
+                              "note": "minimal inputs of repaired / listed defects (corpus/regress.jsonl), run before the generated programs"}
